@@ -55,7 +55,9 @@ fn tagset(k: usize) -> Vec<String> {
         0 => vec![],
         1 => vec!["a".into()],
         2 => vec!["b".into()],
-        _ => vec!["a".into(), "b".into()],
+        3 => vec!["a".into(), "b".into()],
+        // one tag that reads like the two others written together
+        _ => vec!["ab".into()],
     }
 }
 
@@ -92,24 +94,24 @@ pub fn features_t(thorough: bool) -> Vec<gherkin::Feature> {
     let top = if thorough { 4 } else { 3 };
     for ft in 0..top {
         for rt in 0..top {
-            for s1 in 0..4 {
-                for s2 in 0..4 {
-                    for s3 in 0..4 {
+            for s1 in 0..5 {
+                for s2 in 0..5 {
+                    for s3 in 0..5 {
                         let sc = |k: usize| ScenSpec { tags: tagset(k), steps: vec![StepKind::Matched] };
                         let spec = FeatSpec {
                             tags: tagset(ft),
                             bg: vec![StepKind::Matched],
                             scenarios: vec![sc(s1), sc(s2)],
                             rules: vec![
-                                RuleSpec { tags: tagset(rt), bg: vec![], scenarios: vec![sc(s3), sc((s1 + s3) % 4)] },
+                                RuleSpec { tags: tagset(rt), bg: vec![], scenarios: vec![sc(s3), sc((s1 + s3) % 5)] },
                                 // later rules with a background of their own: what is dropped from an
                                 // earlier rule must not shift the decisions taken for these
                                 RuleSpec {
                                     tags: tagset((rt + 1) % 3),
                                     bg: vec![StepKind::Matched],
-                                    scenarios: vec![sc(s2), sc((s2 + s3) % 4), sc(s1)],
+                                    scenarios: vec![sc(s2), sc((s2 + s3) % 5), sc(s1)],
                                 },
-                                RuleSpec { tags: vec![], bg: vec![], scenarios: vec![sc((s1 + s2) % 4)] },
+                                RuleSpec { tags: vec![], bg: vec![], scenarios: vec![sc((s1 + s2) % 5)] },
                                 RuleSpec::default(),
                             ],
                         };
